@@ -259,12 +259,57 @@ fn check_truncation(len: usize) -> CaseResult {
     Ok(Meta::new(true).label(len < 127, "truncated").label(len > 127, "longer-input"))
 }
 
+
+/// A sequence of header writes on one thread, some of them into a sink that fails, is full, or with a header
+/// that cannot be serialised; every write into a healthy sink must still produce exactly the 127 bytes.
+#[derive(Clone, Debug, Serialize, Deserialize)]
+pub struct SeqCase {
+    pub steps: Vec<(SHeader, u8, u8)>,
+}
+
+fn check_sequence(c: &SeqCase) -> CaseResult {
+    use crate::sio::{Sched, Stream};
+    let mut after_failure = false;
+    let mut failed_before = false;
+    for (i, (s, sink, asyncw)) in c.steps.iter().enumerate() {
+        let want = s.encode();
+        let mut h = Header::from_bytes(&want[..]).map_err(|e| Fail::new("C09/valid-header-rejected/sequence", format!("{e}")))?;
+        let a = asyncw % 2 == 1;
+        // 0-4: healthy sink; 5: error at the first write; 6: error at a later operation; 7: sink of fewer than 127 bytes; 8: version 2 in the struct
+        let sched = match sink % 9 {
+            5 => Sched { fail_from: Some(0), ..Sched::none() },
+            6 => Sched { caps: vec![1 + u32::from(*sink) % 100], cycle: true, fail_from: Some(1 + u64::from(*asyncw) % 3), ..Sched::none() },
+            7 => Sched { capacity: Some(u64::from(*asyncw) % 127), ..Sched::none() },
+            _ => Sched::none(),
+        };
+        if sink % 9 == 8 {
+            h.spec_version = 2 + asyncw % 100;
+        }
+        let healthy = sink % 9 <= 4;
+        let mut st = Stream::writer(sched);
+        let r = if a { guarded("Header::to_async_writer", || block_on(h.to_async_writer(&mut st)))? } else { guarded("Header::to_writer", || h.to_writer(&mut st))? };
+        if healthy {
+            r.map_err(|e| Fail::new("C09/write-err/sequence", format!("step {i}: {e}")))?;
+            let out = st.data();
+            let kind = if a { "async" } else { "sync" };
+            ensure!(out.len() == 127, format!("C09/serialised-length-not-127/sequence/{kind}"), "step {i} of the sequence (after {} failed write(s)): {} bytes written", c.steps[..i].iter().filter(|x| x.1 % 9 > 4).count(), out.len());
+            ensure!(out[..] == want[..], format!("C09/serialised-bytes-differ/sequence/{kind}"), "step {i} of the sequence: bytes differ from the v3 layout");
+            after_failure |= failed_before;
+        } else {
+            failed_before = true;
+        }
+    }
+    Ok(Meta::new(after_failure).label(after_failure, "write-after-failed-write"))
+}
+
 pub fn run(ctx: &Ctx) {
     ctx.rec.set_rule(
         "stored coordinates: every i32 value (thorough: all 2^32; quick: every 257th plus boundaries) placed in all six coordinate slots, parse -> serialise must reproduce the 127 \
          bytes; degrees -> stored: f64 coordinates (multiples of 1e-7, half-step ties +-1ulp, negatives, +-0, range ends, uniform) must be stored as the nearest multiple (exact \
          rational oracle, ties either way); random / boundary values for the eleven u64 fields x valid enum codes, sync and async reader and writer in all pairings; every value \
-         0-255 at every one of the first 8 bytes (magic, version) and the clustered / three enum bytes; every truncation length 0-126 and longer inputs (reader must stop at 127). \
+         0-255 at every one of the first 8 bytes (magic, version) and the clustered / three enum bytes; every truncation length 0-126 and longer inputs (reader must stop at 127); \
+         sequences of 1-5 header writes on one thread in which some writes go to a failing or full sink or carry an unserialisable version (every write into a healthy sink must \
+         still emit exactly the 127 bytes). \
          Oracle: independent fixed-offset header codec. Non-trivial: stored coordinate not a multiple of 10, or a non-coordinate field under test; enumerations counted, random by digest.",
     );
     ctx.rec.assume("a clustered byte outside {0,1} is not a valid header; only 'no panic' is required of it");
@@ -298,7 +343,15 @@ pub fn run(ctx: &Ctx) {
     run_indexed(ctx, "every-code-at-magic-version-enum-bytes", (positions.len() * 256) as u64, true, 16, |i| check_byte(positions[(i / 256) as usize], (i % 256) as u8), |i| json!({"pos": positions[(i / 256) as usize], "val": i % 256}));
     // 5. truncations and longer inputs
     run_indexed(ctx, "every-truncation-length", 140, true, 4, |i| check_truncation(i as usize), |i| json!({"len": i}));
-    for c in ["half-step-tie", "negative-degrees", "u64-field-at-boundary", "invalid-code-or-magic", "truncated", "longer-input"] {
+    // 6. sequences of writes on one thread with failing ones in between
+    run_proptest(
+        ctx,
+        "write-sequences-with-failures",
+        PtCfg::new(ctx.lanes, ctx.tier.pick(300, 6000)),
+        || proptest::collection::vec((header_strategy().prop_filter("valid codes", |h| h.internal <= 4), any::<u8>(), any::<u8>()), 1..6).prop_map(|steps| SeqCase { steps }),
+        check_sequence,
+    );
+    for c in ["write-after-failed-write", "half-step-tie", "negative-degrees", "u64-field-at-boundary", "invalid-code-or-magic", "truncated", "longer-input"] {
         ctx.rec.floor(c, 10);
     }
 }
@@ -310,6 +363,7 @@ pub fn replay(sub: &str, case: &Value) -> Option<CaseResult> {
     match sub {
         "degrees-to-stored" => Some(check_degrees(&super::de(case)?)),
         "field-values" => Some(check_fields(&super::de(case)?)),
+        "write-sequences-with-failures" => Some(check_sequence(&super::de(case)?)),
         "every-code-at-magic-version-enum-bytes" => Some(check_byte(case.get("pos")?.as_u64()? as usize, case.get("val")?.as_u64()? as u8)),
         "every-truncation-length" => Some(check_truncation(case.get("len")?.as_u64()? as usize)),
         _ => None,
